@@ -1,6 +1,6 @@
 /-
 Model of `black_it/search_space.py`: `SearchSpace._check_bounds` (lines 96-140) and the grid construction
-in `SearchSpace.__init__` (lines 66-78, `np.arange(lower, upper + 0.0000001, precision)`).
+in `SearchSpace.__init__` (`np.arange(lower, upper + min(0.0000001, 0.5 * precision), precision)`).
 Core Lean only; polymorphic in the number type.
 -/
 namespace BlackIt.SearchSpace
@@ -22,6 +22,8 @@ structure Ops (α : Type) where
   /-- `⌈x⌉` as a natural number, 0 for `x ≤ 0` (numpy's arange length) -/
   ceilNat : α → Nat
   zero : α
+  /-- the constant `0.5` -/
+  half : α
 
 variable {α : Type}
 
@@ -59,24 +61,30 @@ def arange [Add α] [Sub α] [Mul α] [Div α] (ops : Ops α) (start stop step :
   (List.range n).map (fun i =>
     if i = 0 then start else if i = 1 then start + step else start + ops.ofNat i * delta)
 
-/-- the grid of one parameter: `np.arange(lower, upper + tol, precision)` with `tol = 1e-7` in the code -/
+/-- the grid of one parameter for an end-point tolerance `tol`: `np.arange(lower, upper + tol, precision)` -/
 def grid [Add α] [Sub α] [Mul α] [Div α] (ops : Ops α) (tol lo hi p : α) : List α :=
   arange ops lo (hi + tol) p
 
+/-- the end-point tolerance of the code, `min(tolMax, 0.5 * precision)` with `tolMax = 1e-7` (Python's `min`:
+the second argument only when it is strictly smaller): it absorbs the rounding of `upper - lower`, and is never
+larger than half a step -/
+def codeTol [LT α] [DecidableLT α] [Mul α] (ops : Ops α) (tolMax p : α) : α :=
+  if ops.half * p < tolMax then ops.half * p else tolMax
+
 /-- `param_grid` of a search space -/
-def grids [Add α] [Sub α] [Mul α] [Div α] (ops : Ops α) (tol : α) (lower upper prec : List α) : List (List α) :=
-  (lower.zip (upper.zip prec)).map (fun (lo, hi, p) => grid ops tol lo hi p)
+def grids [LT α] [DecidableLT α] [Add α] [Sub α] [Mul α] [Div α] (ops : Ops α) (tolMax : α) (lower upper prec : List α) : List (List α) :=
+  (lower.zip (upper.zip prec)).map (fun (lo, hi, p) => grid ops (codeTol ops tolMax p) lo hi p)
 
 /-- `space_size`: running product of the grid lengths -/
 def spaceSize (gs : List (List α)) : Nat := gs.foldl (fun acc g => acc * g.length) 1
 
 /-- `SearchSpace(bounds, precision)`: validation, then grids and size -/
-def build [BEq α] [LT α] [DecidableLT α] [Add α] [Sub α] [Mul α] [Div α] (ops : Ops α) (tol : α)
+def build [BEq α] [LT α] [DecidableLT α] [Add α] [Sub α] [Mul α] [Div α] (ops : Ops α) (tolMax : α)
     (bounds : List (List α)) (prec : List α) : Except (SSErr α) (List (List α) × Nat) :=
   match checkBounds ops.zero bounds prec with
   | .error e => .error e
   | .ok () =>
-    let gs := grids ops tol (bounds.getD 0 []) (bounds.getD 1 []) prec
+    let gs := grids ops tolMax (bounds.getD 0 []) (bounds.getD 1 []) prec
     .ok (gs, spaceSize gs)
 
 end BlackIt.SearchSpace
